@@ -724,7 +724,7 @@ def teardown(ctx):
 
 
 def plan(tier):
-    m = 1 if tier == 'quick' else 25
+    m = 1 if tier == 'quick' else 100
     p = []
     for name in ri.ROOTS:
         for lay in LAYOUTS:
